@@ -1,4 +1,6 @@
 """C10 — saving and loading a schema or model through JSON is lossless and stable."""
+import json
+
 from . import core
 from . import formgen as fg
 from . import p11
@@ -35,7 +37,21 @@ def form_case(rnd, hist_id):
 
 def model_case(rnd, hist_id):
     cs = p11.history(rnd, hist_id, rnd.randint(5, 40))
-    ops = [o for o in cs['ops'] if o['op'] != 'model.snap']
+    ops = []
+    added = {}
+    for o in cs['ops']:
+        if o['op'] == 'model.snap':
+            continue
+        if o.get('k') == 'addelem':
+            # at most three elements per base set: the document round trip of ℬℬ(X) over four elements (65536 nested sets) takes
+            # longer than the per-operation budget under the sanitizers and says nothing new about the format
+            key = json.dumps(o.get('uid'), sort_keys=True)
+            added[key] = added.get(key, 0) + 1
+            if added[key] > 3:
+                continue
+        if o.get('k') == 'settext' and len(o.get('texts', {})) > 3:
+            o = dict(o, texts=dict(list(o['texts'].items())[:3]))
+        ops.append(o)
     ops.append({'op': 'model.snap', 'm': 'm', 'json': True})
     return core.case(ops, kind='model')
 
@@ -106,6 +122,10 @@ def judge(res, cs, cr):
     ev = cr.events[-1]
     kind = cs['meta']['kind']
     bad = None
+    if ev.get('json_skipped'):
+        res.count('unspecified')      # the model holds a value beyond the workload bound of the round-trip probe (driver/ops_form.cpp)
+        res.count('oversized_models_skipped')
+        return
     doc1, doc2 = ev['doc1'], ev['doc2']
     from .p07 import acyclic
     if not acyclic(ev['snap']['items'], 'term_inputs'):
